@@ -194,8 +194,8 @@ class Exec:
                 raise self.unsupported("ensures of %s: %s" % (self.func.name, e))
             self.oblige("post", node, g, st, "ensures[%d]: %s" % (i, clause_text(c)))
         for b in st.blocks.values():
-            if b.local and b.status == "heap":
-                self.oblige("leak", node, False, st, "block allocated for '%s' is not freed on this path" % b.name)
+            if b.local:
+                self.oblige("leak", node, b.status == "freed", st, "block allocated for '%s' is freed on every path to this exit" % b.name)
 
     # ------------------------------------------------------------------ statements
     def exec_stmt(self, n, st):
@@ -782,11 +782,32 @@ class Exec:
             else:
                 raise self.unsupported("comparison of %s with %s" % (a.kind, b.kind), n)
             return V("int", z3.If(r, z3.IntVal(1), z3.IntVal(0)), "int", r)
-        if op == "/":
+        if op in ("/", "%"):
             if a.kind == "dbl" or b.kind == "dbl":
+                if op == "%":
+                    raise self.unsupported("% on a double", n)
                 return V("dbl", None, "double")
-            raise self.unsupported("integer division", n)
+            return self.intdiv(op, a, b, ctype(n), st, n)
         return self.arith(op, a, b, ctype(n), st, n)
+
+    def intdiv(self, op, a, b, rt, st, node):
+        """C11 6.5.5: the quotient truncates toward zero, (a/b)*b + a%b == a; undefined when b == 0 or when the
+        quotient is not representable (INT_MIN / -1) - both become obligations."""
+        if a.kind != "int" or b.kind != "int":
+            raise self.unsupported("integer %s on %s, %s" % (op, a.kind, b.kind), node)
+        if rt not in SIGNED:
+            raise self.unsupported("integer %s in type %s" % (op, rt), node)
+        lo, hi = self.range_of(rt)
+        self.oblige("div_zero", node, b.t != 0, st, "divisor of %s is not zero" % self.text(node))
+        self.oblige("overflow", node, z3.Not(z3.And(a.t == lo, b.t == -1)), st,
+                    "%s: quotient representable in %s" % (self.text(node), rt))
+        aa = z3.If(a.t >= 0, a.t, -a.t)
+        bb = z3.If(b.t >= 0, b.t, -b.t)
+        qabs = aa / bb                    # z3 integer division; both operands non-negative, so it is the floor
+        q = z3.If((a.t >= 0) == (b.t >= 0), qabs, -qabs)
+        if op == "/":
+            return V("int", q, rt)
+        return V("int", a.t - b.t * q, rt)
 
     def compound(self, n, st):
         op = n["opcode"][0]
@@ -907,7 +928,8 @@ class Exec:
             ni = fresh("%s.row_init" % o.name, ABool)
             m = fresh("q_m", IntS)
             # realloc keeps the first min(old, new) cells; everything beyond is unwritten
-            st.pc.append(z3.ForAll([m], z3.Select(ni, m) == z3.And(z3.Select(old_init, m), m < old_len, m < nlen)))
+            st.pc.append(z3.ForAll([m], z3.Select(ni, m) == z3.And(z3.Select(old_init, m), m < old_len, m < nlen),
+                                   patterns=[z3.Select(ni, m)]))
             fam["sub_len"] = z3.Store(fam["sub_len"], idx, nlen)
             fam["sub_init"] = z3.Store(fam["sub_init"], idx, ni)
 
@@ -925,11 +947,9 @@ class Exec:
             if v.kind != "ptr" or v.t[0] != "blk":
                 raise self.unsupported("free of %s" % v.kind, node)
             b = st.blocks[v.t[1]]
-            if b.status == "freed":
-                self.oblige("double_free", node, False, st, "block of '%s' is freed twice" % name)
-            elif b.status == "param":
-                self.oblige("free_nonheap", node, False, st, "'%s' is owned by the caller" % name)
-            else:
+            self.oblige("double_free", node, b.status != "freed", st, "block of '%s' is not already freed" % name)
+            self.oblige("free_nonheap", node, b.status != "param", st, "'%s' was allocated here, not passed in by the caller" % name)
+            if b.status == "heap":
                 if b.fam is not None:
                     k = fresh("sk_s", IntS)
                     self.oblige("leak_inner", node, z3.Implies(z3.And(k >= 0, k < b.len), z3.Not(z3.Select(b.fam["sub_alive"], k))),
